@@ -426,6 +426,13 @@ def e2e_part(ctx, rows, tz):
             cases.append((txt, None, tza, ('ok', (nows + d, o), None)))
             cases.append((None, txt, tza, ('ok', None, (nows + d, o))))
         cases.append(('-1d', '+1d', tza, ('ok', (nows - 86400, o), (nows + 86400, o))))
+        # one bound relative to program start, the other relative to IT ('@'), in both positions
+        for nowrel, dn in [('-1d', -86400), ('+0s', 0), ('+2h30m', 9000), ('-1w', -604800)]:
+            for D, dd in [('1h', 3600), ('2d3s', 172803)]:
+                cases.append(('@-' + D, nowrel, tza, ('ok', (nows + dn - dd, o), (nows + dn, o))))
+                cases.append((nowrel, '@+' + D, tza, ('ok', (nows + dn, o), (nows + dn + dd, o))))
+            cases.append(('@+1h', nowrel, tza, ('reject', 'after-gt-before')))
+            cases.append((nowrel, '@-1h', tza, ('reject', 'after-gt-before')))
         cases.append(('+1d', '-1d', tza, ('reject', 'after-gt-before')))
         cases.append(('20220103', '20220102', tza, ('reject', 'after-gt-before')))
         # after later than before by less than a second / a millisecond / one microsecond, also across zones: still rejected
